@@ -281,7 +281,11 @@ class BaseSpec:
 # driver
 # ------------------------------------------------------------------------------------------------
 def hfunc(relpath, qual, closure=None):
-    node, chain = source.find_def(relpath, qual)
+    try:
+        node, chain = source.find_def(relpath, qual)
+    except KeyError as e:
+        # the function the contract is written for is not where it was (renamed, moved, hoisted): the contract does not apply
+        raise OutsideSubset(f"function under contract not found: {e}")
     mod = source.load_module(relpath)
     owner = None
     return O.HFunc(node, mod, closure, qual, owner)
@@ -289,8 +293,13 @@ def hfunc(relpath, qual, closure=None):
 
 def method_of(I, relpath, clsname, meth):
     mod = source.load_module(relpath)
+    if clsname not in mod.defs:
+        raise OutsideSubset(f"class under contract not found: {relpath}::{clsname}")
     ci = I.class_of_node(mod, mod.defs[clsname])
-    owner, node = ci.lookup(meth)
+    found = ci.lookup(meth)
+    if not found or found[1] is None:
+        raise OutsideSubset(f"method under contract not found: {relpath}::{clsname}.{meth}")
+    owner, node = found
     return ci, O.HFunc(node, owner.module, None, owner.name + "." + meth, owner=owner)
 
 
